@@ -448,9 +448,11 @@ def parse_len(s):
     return float(m.group(1)), (m.group(2) or '')
 
 
-def cl_term(aid, s):
+def cl_term(aid, s, fs=None):
     n, u = parse_len(s)
-    return '(CL %s %s %s)' % (aid, xnum_f(to_f32(n)), UNIT_COQ[u])
+    if fs is None:
+        return '(CL %s %s %s)' % (aid, xnum_f(to_f32(n)), UNIT_COQ[u])
+    return '(CLf %s %s %s %s)' % (xnum_f(to_f32(float(fs))), aid, xnum_f(to_f32(n)), UNIT_COQ[u])
 
 
 def f32_next(x, k):
@@ -461,15 +463,17 @@ def f32_next(x, k):
     return struct.unpack('f', struct.pack('I', b))[0]
 
 
-WIDTHS = [None, '2', '0', '-1', '0.001', '0.5in', '1e38in', '1e300', '3mm', '10%', '1.5em', '2ex', '7pt', '1pc', '2cm', '4px',
+FONT_SIZES = [None, None, None, '-4', '0', '1e30', '3e38', '20', '1e-30', '-1e30']
+WIDTHS = [None, '2', '3e38in', '1.5em', '2ex', '1e38em', '0', '-1', '0.001', '0.5in', '1e38in', '1e300', '3mm', '10%', '1.5em', '2ex', '7pt', '1pc', '2cm', '4px',
           '1e-46', '1e-300', '3e38', '1e39', '-0']
 MITERS = [None, '1', '0.5', '4', '10.5', '-3', '1e300', '0', '1e-300', '1e39', '3.4e38', '-1e300', '0.999999', '1.0000001']
-DASHES = [None, 'none', '5', '5 3', '5 3 2', '0 0', '0', '-1 2', '1e38in 5', '1e300 1', '2.5 0', '1e-46 0', '10% 5%',
+DASHES = [None, 'none', '2em 1em', '1ex 3', '3e38in 5', '2e38em 1', '5 3e38mm', '1em', '2ex 1em 3', '5', '5 3', '5 3 2', '0 0', '0', '-1 2', '1e38in 5', '1e300 1', '2.5 0', '1e-46 0', '10% 5%',
           '3 0 0', '5,3,2,1', '1e-300', '0 0 0', '2 -0.5', '1e39 1e39', '3e38 3e38', '1em 2ex', '1mm 2cm 3pt', '5 -1e300']
 
 
 def gen_stroke_case(rng):
-    return dict(w=rng.choice(WIDTHS), m=rng.choice(MITERS), d=rng.choice(DASHES))
+    # font-relative units under negative / zero / huge font sizes, values that overflow only after the unit factor
+    return dict(w=rng.choice(WIDTHS), m=rng.choice(MITERS), d=rng.choice(DASHES), fs=rng.choice(FONT_SIZES))
 
 
 def stroke_doc(c):
@@ -480,18 +484,21 @@ def stroke_doc(c):
         a += ' stroke-miterlimit="%s"' % c['m']
     if c['d'] is not None:
         a += ' stroke-dasharray="%s"' % c['d']
+    if c.get('fs') is not None:
+        a += ' font-size="%s"' % c['fs']
     return '<svg %s width="100" height="100" viewBox="0 0 100 100"><path d="M10 10 L90 90 L10 90" fill="none" stroke="black"%s/></svg>' % (NS, a)
 
 
 def stroke_in_term(c):
-    w = '(Fin 1)' if c['w'] is None else cl_term('A_Other', c['w'])
+    fs = c.get('fs')
+    w = '(Fin 1)' if c['w'] is None else cl_term('A_Other', c['w'], fs)
     m = 'None' if c['m'] is None else '(Some %s)' % xnum_f(to_f32(float(c['m'])))
     if c['d'] is None:
         d = 'None'
     elif c['d'] == 'none':
         d = '(Some [])'
     else:
-        d = '(Some [%s])' % ';'.join(cl_term('A_Other', t) for t in re.split(r"[\s,]+", c['d'].strip()))
+        d = '(Some [%s])' % ';'.join(cl_term('A_Other', t, fs) for t in re.split(r"[\s,]+", c['d'].strip()))
     return '{| si_width := %s; si_miter := %s; si_dash := %s |}' % (w, m, d)
 
 
@@ -700,7 +707,10 @@ def gen_text_case(rng):
         if not any(isinstance(k, str) for k in kids) and not kids:
             kids.append(word())
         n = count_chars(kids)
-        return dict(x=poslist(n), y=poslist(n) if rng.below(3) == 0 else None, kids=kids)
+        # a non-positive font size makes collect_text_chunks skip the element's own text nodes (not its tspans
+        # with a positive size); never on the root, so that some text remains
+        fs = rng.choice([None, None, None, None, '0', '-3', '14']) if depth > 0 else None
+        return dict(x=poslist(n), y=poslist(n) if rng.below(3) == 0 else None, kids=kids, fs=fs)
     return elem(0)
 
 
@@ -718,6 +728,8 @@ def text_doc(c):
             a += ' x="%s"' % e['x']
         if e['y'] is not None:
             a += ' y="%s"' % e['y']
+        if e.get('fs') is not None:
+            a += ' font-size="%s"' % e['fs']
         inner = ''.join(k if isinstance(k, str) else ser(k, 'tspan') for k in e['kids'])
         return '<%s%s>%s</%s>' % (tag, a, inner, tag)
     t = ser(c, 'text')
@@ -746,15 +758,18 @@ def text_fold_input(c):
     out = []
     idx = [0]
 
-    def walk(e):
+    def walk(e, fs):
+        if e.get('fs') is not None:
+            fs = float(e['fs'])
         for kid in e['kids']:
             if isinstance(kid, str):
                 for j, ch in enumerate(kid):
-                    out.append((len(ch.encode('utf-8')), hasx[idx[0]], j == 0))
+                    if fs > 0:          # text of an element with a non-positive font size is skipped (positions still advance)
+                        out.append((len(ch.encode('utf-8')), hasx[idx[0]], j == 0))
                     idx[0] += 1
             else:
-                walk(kid)
-    walk(c)
+                walk(kid, fs)
+    walk(c, 10.0)
     return out
 
 
@@ -820,10 +835,22 @@ def gen_numeric_doc(rng):
     """hand-made templates exercising every clause with extreme magnitudes"""
     E = lambda: rng.choice(EXTREMES)
     T = lambda: rng.choice(TS_EXTREMES)
-    k = rng.below(12)
+    k = rng.below(14)
+    FS = lambda: rng.choice(['-4', '0', '1e30', '3e38', '12', '-1e30', '1e-30'])
+    DU = lambda: rng.choice(EXTREMES + ['2em', '1ex', '3e38in', '-1em', '2e38em', '3e38mm', '1em'])
     if k == 0:
         return ('<svg %s width="100" height="100"><g transform="%s"><g transform="%s"><rect width="%s" height="10" stroke="red" '
                 'stroke-width="%s" stroke-miterlimit="%s" stroke-dasharray="%s %s"/></g></g></svg>' % (NS, T(), T(), E(), E(), E(), E(), E()))
+    if k == 12:
+        # font-relative units under negative / zero / huge font sizes; values that overflow only after the unit factor
+        return ('<svg %s width="100" height="100" font-size="%s"><path d="M10 10 L90 20 L30 80" fill="none" stroke="red" font-size="%s" '
+                'stroke-width="%s" stroke-dasharray="%s %s"/><rect x="5" y="50" width="40" height="30" stroke="blue" stroke-width="%s" '
+                'stroke-dasharray="%s"/></svg>' % (NS, rng.choice(['12', FS()]), FS(), rng.choice(['2', '1em', DU()]), DU(), DU(), DU(), DU()))
+    if k == 13:
+        # text skipped in the middle of a chunk (non-positive font size), followed by more text of the same chunk
+        return ('<svg %s width="200" height="100" font-family="Noto Sans" font-size="12"><text x="10" y="50">a\u00e9<tspan font-size="%s">c\u20acd</tspan>'
+                'ef<tspan font-size="%s">\U0001F600</tspan>g<tspan x="%s">hi</tspan></text></svg>'
+                % (NS, rng.choice(['0', '-5', E()]), rng.choice(['0', '14', '-1e30']), rng.choice(['80', E()])))
     if k == 1:
         return ('<svg %s width="100" height="100"><linearGradient id="g" gradientTransform="%s" x1="%s" x2="%s"><stop offset="%s"/>'
                 '<stop offset="%s" stop-color="red"/><stop offset="%s"/></linearGradient><rect x="%s" width="%s" height="20" fill="url(#g)"/></svg>'
@@ -1018,6 +1045,8 @@ def correspondence(ctx, binp, nper):
         if 'dump' in full:
             EXTRA_TREES.append(('crafted text document #%d' % i, docs[i], full, "-\t" + docs[i]))
         obs = text_obs_term(t) if 'root' in t else None
+        if obs is None and 'root' in t and not text_fold_input(c):
+            continue          # every character skipped: no text node is the expected outcome
         if obs is None:
             ctx.violation("crafted text document produced no text node: %s" % str(t)[:200], dict(kind='k-text', doc=docs[i]))
             ok = False
@@ -1056,11 +1085,15 @@ def judge_tree(ctx, label, doc_text, res, why, replay):
                                    "tree of %s is not valid: %s" % (label, text), dict(replay, codes=codes))
         else:
             ctx.violation("tree of %s is not valid: %s" % (label, text), dict(replay, codes=codes))
+    if res.get('write_panic'):
+        ctx.violation("Tree::to_string panicked on the tree of %s (%s): span offsets / values out of contract"
+                      % (label, str(res['write_panic'])[:120]), dict(replay, write_panic=res['write_panic'], codes=codes))
     probs = scan_svg(res['svg'])
     probs_pt = scan_svg(res['svg_pt'])
     allp = probs + [p for p in probs_pt if p not in probs]
     units = [p for p in allp if p[0] == 'units-not-user-space']
-    other = [p for p in allp if p[0] != 'units-not-user-space']
+    # a written form that is not well-formed XML is C07's subject (e.g. an id with a quote, F42): nothing to scan here
+    other = [p for p in allp if p[0] not in ('units-not-user-space', 'unparsable')]
     if other:
         ctx.violation("written form of %s carries an unresolved value: %s" % (label, other[:3]), dict(replay, problems=other[:10]))
     if units or res['dbg_obb']:
